@@ -420,6 +420,7 @@ def angle_option_rule(ctx, R):
 
 
 def run(ctx):
+    _ownership(ctx)
     _wiring(ctx)
     ctx.rule('R07.1', 'direct and inverted cost gate on CHI2INV95[dim-1] with the same comparison; value table')
     ctx.floor('R07.1', gate_rule(ctx, 'R07.1'), 11)
@@ -440,3 +441,10 @@ def _wiring(ctx):
     import wiring
     ctx.rule('R07.5', 'configuration plumbing: same-named fields / parameters / setters / call arguments are not crossed')
     ctx.floor('R07.5', wiring.run(ctx, 'R07.5', {'position_weight', 'velocity_weight'}), 24)
+
+
+def _ownership(ctx):
+    """who-may-write rows of rules/ownership.py that concern this property"""
+    import ownership
+    ctx.rule('R07.8', 'who-may-write: state this property depends on is changed only by its owners (rules/ownership.py)')
+    ctx.floor('R07.8', ownership.run(ctx, 'R07.8', 'C07'), 2)
